@@ -247,7 +247,9 @@ func H_cli_gen() {
 		ok = vAnd(ok, vNot(w.hasErrs[i]))
 		ok = vAnd(ok, vOr(vNot(w.hasContent[i]), vNot(w.commitFails[i])))
 	}
-	vA("C17", vIff(status == subcommands.ExitSuccess, ok), "gen exits 0 exactly when the environment is usable, loading succeeded, no package has errors and every write succeeded")
+	// (C18 too: a gen that reports success although a package failed leaves that package's stale output behind)
+	vA("C17,C18", vImplies(status == subcommands.ExitSuccess, ok), "gen exits 0 only when the environment is usable, loading succeeded, no package has errors and every write succeeded")
+	vA("C17", vImplies(ok, status == subcommands.ExitSuccess), "gen exits 0 when the environment is usable, loading succeeded, no package has errors and every write succeeded")
 	// file-system footprint
 	reached := vConcBool(vAnd(envOK, vNot(w.loadErr)))
 	wantWrites := 0
@@ -280,6 +282,16 @@ func H_cli_gen() {
 		vA("C17", known, "gen touches no file other than <prefix>wire_gen.go of the processed packages")
 	}
 	vA("C17", len(w.removed) == 0, "gen removes or renames nothing")
+	// C18: a gen that reports success has brought every processed package to the state a fresh checkout
+	// would get: no package was left behind with errors (its old file, whatever it held, would survive)
+	if status == subcommands.ExitSuccess {
+		for i := 0; i < w.n; i++ {
+			path := outPath(i, cmd.prefixFileName)
+			if vConcBool(w.hasContent[i]) {
+				vA("C18", w.present[path] && w.files[path] == newContent(i), "after a successful gen every generated package holds exactly the fresh content")
+			}
+		}
+	}
 	if reached {
 		vA("C17", w.prefixSeen == cmd.prefixFileName && w.tagsSeen == cmd.tags, "options are passed through to generation")
 		if w.headerGiven {
